@@ -271,7 +271,7 @@ pub fn run(cfg: &Cfg) -> i32 {
         }
         let max_log2 = cfg.tier.pick(16u8, 20u8);
         let strat = program_strategy(max_log2, 400);
-        engine::pbt(ctx, seedf(1), cfg.per_shard(400_000, 8_000_000), &strat, |ctx, p: &Program| check_program(ctx, p))?;
+        engine::pbt(ctx, seedf(1), cfg.per_shard(1_200_000, 16_000_000), &strat, |ctx, p: &Program| check_program(ctx, p))?;
         Ok(())
     });
     engine::finish(
